@@ -286,6 +286,18 @@ namespace {
         e.axiomatised.insert(c.id());
         e.axiomatised.insert(s.id());
         add_pc(c * c + s * s == one && c >= -one && c <= one && s >= -one && s <= one);
+        // parity: cos(-t) = cos(t), sin(-t) = -sin(t)
+        {
+          z3::expr a = arg.simplify();
+          z3::expr inner(e.ctx);
+          bool isneg = false;
+          if (a.is_app() && a.decl().decl_kind() == Z3_OP_UMINUS) { inner = a.arg(0); isneg = true; }
+          else if (a.is_app() && a.decl().decl_kind() == Z3_OP_MUL && a.num_args() == 2 && a.arg(0).is_numeral() && a.arg(0).get_decimal_string(3) == "-1") { inner = a.arg(1); isneg = true; }
+          if (isneg) {
+            z3::expr ci = e.f1[sx::F_COS](inner), si = e.f1[sx::F_SIN](inner);
+            add_pc(c == ci && s == -si && ci * ci + si * si == one);
+          }
+        }
       }
       break;
     case sx::F_LOG:
@@ -709,7 +721,17 @@ namespace sx {
       axioms_for(F_SQRT, ta * ta + tb * tb, h);
       return wrap(h);
     }
-    return wrap(e.f2[f](ta, tb));
+    z3::expr app2 = e.f2[f](ta, tb);
+    if (f == F_ATAN2 && e.opt.ax_trig && !e.axiomatised.count(app2.id())) {
+      e.axiomatised.insert(app2.id());
+      // atan2(y,x): cos = x/h, sin = y/h with h = sqrt(x^2+y^2) > 0
+      z3::expr h = e.f1[F_SQRT](ta * ta + tb * tb);
+      z3::expr c = e.f1[F_COS](app2), s2 = e.f1[F_SIN](app2);
+      z3::expr zero = e.ctx.real_val(0);
+      add_pc(h >= zero && h * h == ta * ta + tb * tb);
+      add_pc(z3::implies(h > zero, c * h == tb && s2 * h == ta && c * c + s2 * s2 == e.ctx.real_val(1)));
+    }
+    return wrap(app2);
   }
 
   long to_integer(const SymReal & a, void * site)
